@@ -109,7 +109,9 @@ def doc_worker(kp, job):
             viol.append(('canonical', f'the other layout has import errors: {errb[0].encoding!r}', {'text': text, 'other_layout': text2}))
     except Exception as e:
         viol.append(('canonical', f'the other layout raised {type(e).__name__}', {'text': text, 'other_layout': text2}))
-    if any(c.kind == 'chord' and any(n['kind'] == 'rest' for n in c.ast['notes']) for row in g.rows() for c in row):
+    # finding K11: a rest inside a chord takes the signifiers of its neighbours - only chords that HAVE signifiers
+    if any(c.kind == 'chord' and any(n['kind'] == 'rest' for n in c.ast['notes']) and any(n['decos'] for n in c.ast['notes'])
+           for row in g.rows() for c in row):
         viol = [(cl, 'rest-in-chord: ' + sig, w) for cl, sig, w in viol]
     records[0]['viol'] = viol
     if idx % 47 == 0:
@@ -145,6 +147,11 @@ def multi_worker(kp, job):
             pre = ''.join(d for d in ds if d in ('(', '&(', '&&(', '[', '[y') and rng.random() < 0.35)
             return pre + rng.choice(['4', '8', '16', '2.']) + rng.choice(pitches) + ''.join(ds)
         cell = note() if rng.random() < 0.6 else ' '.join(note() for _ in range(rng.randint(2, 3)))
+        if it % 8 == 7:
+            # a rest with an explicit staff position (4ree, 2r;GG): read by the grammar, outside the scanner model
+            ds = ''.join(rng.sample(list(tokens.REST_DECO), rng.randint(0, 2)))
+            pos = rng.choice('abcdefgABCDEFG') * rng.randint(1, 3)
+            cell = rng.choice(['4', '8.', '2', '16']) + rng.choice(['r' + pos + ds, 'r' + ds + pos])
         if it < len(fixed):
             cell = fixed[it]
         text = f'**kern\n*clefG2\n{cell}\n*-\n'
@@ -202,7 +209,7 @@ def run(chk):
                 'chord, after a barline) and every ordered pair of the signifier tables (a seeded third in the quick tier) plus '
                 'random CKL tokens: kernpy token vs model token; (b) generated documents: default and extended export, the '
                 'separator-free extended text, re-import, and a second layout of every note; (c) notes and chords with signifiers of '
-                'more than one character (&( &) Ww TT xx yy [y ??) mixed with their parts: fixed point on kernpy alone; non-trivial = distinct cell / text')
+                'more than one character (&( &) Ww TT xx yy [y ??) mixed with their parts, and rests with an explicit staff position: fixed point on kernpy alone; non-trivial = distinct cell / text')
     results = engine.pmap(sweep_worker, jobs) + engine.pmap(doc_worker, [(chk.seed, i) for i in range(ndocs)])
     results += engine.pmap(multi_worker, [(chk.seed, i) for i in range(core.budget(chk, full, 16, 160))])
     engine.settle(chk, results, model)
